@@ -181,8 +181,53 @@ impl Sub for BatchInv {
     }
 }
 
+/// Every operation applied twice in a row to the same operands, by all workers at once: the
+/// operations are pure functions, so the second answer must equal the first and both must be right,
+/// also while other threads are computing with other operands (memoised results, shared scratch).
+#[derive(Clone, Debug, Serialize, Deserialize)]
+pub struct RepeatCase {
+    start: u16,
+    stride: u16,
+    count: u32,
+}
+
+struct ConcurrentRepeat;
+
+impl Sub for ConcurrentRepeat {
+    type Case = RepeatCase;
+    fn name(&self) -> &'static str {
+        "felt_repeated_under_concurrency"
+    }
+    fn strategy(&self, _env: &Env) -> BoxedStrategy<RepeatCase> {
+        (any::<u16>(), 1u16..5000, Just(20_000u32)).prop_map(|(start, stride, count)| RepeatCase { start, stride, count }).boxed()
+    }
+    fn check(&self, c: &RepeatCase, st: &mut Stats) -> Result<(), Fail> {
+        let q = Q as u32;
+        for i in 0..c.count.min(1_000_000) {
+            let a = ((c.start as u32 + i * c.stride as u32) % q) as i16;
+            let b = ((c.start as u32 * 7 + i * 13) % q) as i16;
+            let (a64, b64) = (a as i64, b as i64);
+            for round in 0..2 {
+                let inv = felt::inv(a) as i64;
+                let ok = (0..Q).contains(&inv) && if a == 0 { inv == 0 } else { (inv * a64).rem_euclid(Q) == 1 };
+                ensure!(ok, "felt:inv", "inverse of {} is {} on call {} of two consecutive calls (other threads are inverting other residues)", a, inv, round + 1);
+                ensure!(felt::mul(a, b) as i64 == (a64 * b64).rem_euclid(Q), "felt:mul", "{} * {} wrong on call {} of two consecutive calls under concurrency", a, b, round + 1);
+                ensure!(felt::add(a, b) as i64 == (a64 + b64).rem_euclid(Q), "felt:add", "{} + {} wrong on repeated call under concurrency", a, b);
+                ensure!(felt::sub(a, b) as i64 == (a64 - b64).rem_euclid(Q), "felt:sub", "{} - {} wrong on repeated call under concurrency", a, b);
+                ensure!(felt::neg(a) as i64 == (-a64).rem_euclid(Q), "felt:neg", "-{} wrong on repeated call under concurrency", a);
+                ensure!(felt::new(a - b) as i64 == (a64 - b64).rem_euclid(Q), "felt:new", "conversion of {} wrong on repeated call under concurrency", a - b);
+            }
+        }
+        st.evaluations += c.count as u64 * 12;
+        st.add("operations_repeated_under_concurrency", c.count as u64 * 12);
+        st.nontrivial(&(c.start, c.stride));
+        st.sample("repeat", || json!({"start": c.start, "stride": c.stride, "count": c.count}));
+        Ok(())
+    }
+}
+
 const META: Meta = Meta {
-    rule: "complete enumeration: all (a,b) in [0,q)^2 for add/sub/mul, all a in [0,q) for neg/inverse/centred value, all 65536 i16 inputs of the conversion; non-trivial = operands non-zero (for the conversion: input outside [0,q)); these are distinct by construction. Batch inversion: proptest vectors of length 0..1024 with zeros at generated positions, non-trivial = contains both zero and non-zero entries (distinct by hash).",
+    rule: "complete enumeration: all (a,b) in [0,q)^2 for add/sub/mul, all a in [0,q) for neg/inverse/centred value, all 65536 i16 inputs of the conversion; non-trivial = operands non-zero (for the conversion: input outside [0,q)); these are distinct by construction. Repeated calls: 16 workers at once apply every operation twice in a row to generated residues (20 000 residues per case) - pure functions must repeat their answer whatever other threads compute. Batch inversion: proptest vectors of length 0..1024 with zeros at generated positions, non-trivial = contains both zero and non-zero entries (distinct by hash).",
     assumptions: &[
         "oracle: i64 arithmetic with rem_euclid",
         "the hook wrappers construct field elements from canonical residues without reducing them",
@@ -191,7 +236,7 @@ const META: Meta = Meta {
 
 pub fn run(env: &Env, replay: Option<&Path>) -> i32 {
     let mut report = Report::new();
-    let subs: [&dyn DynSub; 3] = [&FeltBin, &FeltUn, &BatchInv];
+    let subs: [&dyn DynSub; 4] = [&FeltBin, &FeltUn, &BatchInv, &ConcurrentRepeat];
     if let Some(p) = replay {
         if let Err(e) = replay_file(env, &subs, p, &mut report) {
             eprintln!("harness: {}", e);
@@ -210,5 +255,6 @@ pub fn run(env: &Env, replay: Option<&Path>) -> i32 {
     report.exhaustive = true;
     report.notes.push("exhaustive applies to the five element operations and the i16 conversion; batch inversion is sampled".into());
     drive(env, &BatchInv, env.tier.pick(20_000, 400_000), &mut report);
+    drive(env, &ConcurrentRepeat, env.tier.pick(160, 3_200), &mut report);
     finish(env, report, &META)
 }
